@@ -17,7 +17,7 @@ RawBytes == {"{ff}", "{80}", "{ef}{bb}{bf}", "#", "\r", "\t", "A", "AUTOSAR", "S
 Hdr == "<?xml version=\"1.0\" encoding=\"utf-8\"?>\n"
 Root == "<AUTOSAR xsi:schemaLocation=\"http://autosar.org/schema/r4.0 AUTOSAR_00050.xsd\" xmlns=\"http://autosar.org/schema/r4.0\" xmlns:xsi=\"http://www.w3.org/2001/XMLSchema-instance\">"
 Prefixes == <<"", Hdr, Hdr \o Root, Hdr \o Root \o "<AR-PACKAGES><AR-PACKAGE>", Hdr \o Root \o "<AR-PACKAGES><AR-PACKAGE><SHORT-NAME>",
-              Hdr \o Root \o "<AR-PACKAGES><AR-PACKAGE UUID=", "<?xml ">>
+              Hdr \o Root \o "<AR-PACKAGES><AR-PACKAGE UUID=", Hdr \o Root \o "<AR-PACKAGES><AR-PACKAGE UUID=\"", "<?xml ">>
 RECURSIVE Cat(_)
 Cat(sq) == IF sq = <<>> THEN "" ELSE Head(sq) \o Cat(Tail(sq))
 Strings == UNION {[1..n -> Alphabet] : n \in 0..MaxLen} \cup UNION {[1..n -> RawBytes \cup {"<", ">"}] : n \in 1..2}
